@@ -53,8 +53,23 @@ type R struct {
 	mergedEval int64
 }
 
+// Dry makes Begin return runs that record nothing and write nothing: a check (C37) uses it to call the test functions
+// of other checks only to collect their scenario lists.
+var Dry bool
+
 // Begin starts a check run. level is one of exploration, fault_enumeration, model_checking.
 func Begin(t testing.TB, id, level string) *R {
+	if Dry {
+		d := &R{ID: id, Level: level, t: t, start: time.Now(), exhaustive: true, viol: map[string]*Violation{}, extra: map[string]any{}, ended: true, tier: os.Getenv("VERIF_TIER")}
+		if d.tier != "thorough" {
+			d.tier = "quick"
+		}
+		d.deadline = d.start.Add(time.Hour)
+		for i := range d.nontriv {
+			d.nontriv[i].m = map[uint64]struct{}{}
+		}
+		return d
+	}
 	r := &R{ID: id, Level: level, t: t, start: time.Now(), exhaustive: true,
 		viol: map[string]*Violation{}, extra: map[string]any{}}
 	r.tier = os.Getenv("VERIF_TIER")
